@@ -445,6 +445,12 @@ func buildContainer(d *ClaimsDesc) (psatoken.ISwComponents, error) {
 	if len(d.Sw) == 0 {
 		return cont, nil
 	}
+	// valid components go in through the container's own Add (no codec involved);
+	// only a list holding an invalid component needs the codec to get inside
+	if err := cont.Add(swToIface(d.Sw)...); err == nil {
+		return cont, nil
+	}
+	cont = &psatoken.SwComponents[*psatoken.SwComponent]{}
 	// the public codec is the only way to place an invalid component inside
 	if err := cont.UnmarshalCBOR(encodeSwList(d.Sw)); err != nil {
 		return nil, fmt.Errorf("container decode: %w", err)
